@@ -6,7 +6,7 @@
    of the columns gives the same result), foreign items, loops and save frames leave the state untouched, numeric access
    never substitutes a value, and an InvalidatingError rejects the read at every level. *)
 From Coq Require Import List Ascii String ZArith Bool Lia Arith Permutation.
-From PV Require Import Base.Sx Base.Text Base.Num Spec.Hier Model.PdbLex Model.PdbParse Model.CifLex Model.CifParse Proofs.C06lex Proofs.C02lay.
+From PV Require Import Base.Sx Base.Text Base.Num Spec.Hier Model.PdbLex Model.PdbParse Model.CifLex Model.CifParse Proofs.C06lex Proofs.C02lay Proofs.C02col.
 Import ListNotations.
 
 (* 1. white space and comments between tokens do not matter *)
@@ -53,6 +53,38 @@ Proof.
   { induction x as [|c r IH]; simpl; [rewrite W; reflexivity|]. destruct (is_ws c); [exact IH|]. apply (T (c :: r)). }
   apply L.
 Qed.
+(* a bare word is the number it has the shape of, and its text otherwise *)
+Theorem C02_bare_word : forall c w rest, is_ordinary c = true -> Ascii.eqb c "." = false -> Ascii.eqb c "?" = false ->
+  forallb (fun x => negb (is_aws x)) w = true ->
+  match rest with [] => True | x :: _ => is_aws x = true end -> reserved (c :: w ++ rest) = false ->
+  parse_value (c :: w ++ rest) = (inl (match parse_numeric (c :: w) with Some v => v | None => VText (c :: w) end), rest).
+Proof. exact bare_word. Qed.
+
+(* 2b. the atom_site rows are read through the column names only: any order of the columns (the same permutation of the
+       header and of a row), and foreign columns anywhere, give the same result *)
+Theorem C02_column_order : forall dh fo hdr row hdr' row' s,
+  List.length hdr = List.length row -> List.length hdr' = List.length row' -> NoDup hdr ->
+  Permutation (combine hdr row) (combine hdr' row') -> atom_row dh fo hdr' s row' = atom_row dh fo hdr s row.
+Proof. exact row_column_order. Qed.
+Theorem C02_mandatory_columns_order : forall hdr hdr', Permutation hdr hdr' ->
+  filter (fun n => match position_text hdr' (stext n) 0 with None => true | Some _ => false end) required_columns =
+  filter (fun n => match position_text hdr (stext n) 0 with None => true | Some _ => false end) required_columns.
+Proof. exact missing_columns_order. Qed.
+Theorem C02_foreign_column : forall T (get : cval -> option T + diag) h v hdr row name,
+  text_eqb h (stext name) = false -> column get (h :: hdr) (v :: row) name = column get hdr row name.
+Proof. exact column_extra. Qed.
+
+(* 2c. foreign content: save frames, loops of other categories and single items the reader does not know leave the
+       state as it is, wherever they stand *)
+Theorem C02_frame_inert : forall dh fo ao s name items, item_step dh fo ao s (IFrame name items) = s.
+Proof. reflexivity. Qed.
+Theorem C02_foreign_loop_inert : forall dh fo ao s hdr rows, existsb (starts_with "atom_site.") hdr = false ->
+  item_step dh fo ao s (IData (DLoop hdr rows)) = s.
+Proof. intros. cbn [item_step]. rewrite H. reflexivity. Qed.
+Theorem C02_foreign_item_inert : forall dh fo ao s name v, recognised name = false ->
+  item_step dh fo ao s (IData (DSingle name v)) = s.
+Proof. intros. cbn [item_step]. destruct ao; [reflexivity|]. apply foreign_single. assumption. Qed.
+
 (* 3. numeric access never substitutes a value *)
 Theorem C02_number_or_error : forall v f, get_f64 v = inl (Some f) -> v = VNum f.
 Proof. intros v f. destruct v; simpl; intros H; inversion H; reflexivity. Qed.
@@ -81,6 +113,13 @@ Print Assumptions C02_single_quoted.
 Print Assumptions C02_double_quoted.
 Print Assumptions C02_text_field.
 Print Assumptions C02_text_field_trimmed.
+Print Assumptions C02_bare_word.
+Print Assumptions C02_column_order.
+Print Assumptions C02_mandatory_columns_order.
+Print Assumptions C02_foreign_column.
+Print Assumptions C02_frame_inert.
+Print Assumptions C02_foreign_loop_inert.
+Print Assumptions C02_foreign_item_inert.
 Print Assumptions C02_number_or_error.
 Print Assumptions C02_text_in_numeric_column.
 Print Assumptions C02_invalidating_rejects.
